@@ -290,7 +290,7 @@ pub fn run(tier: Tier, seed: u64, known: &Known) -> PropRun {
         "acceptance rule (nothing held, or held depth <= new depth => the new data is retrievable at once) is the property's 'shallower never replaces deeper, equal or deeper does'".into(),
         "a table that forgets entries is allowed by the statement ('returns either nothing or ...'); forgetting is counted, not judged".into(),
     ];
-    let part = Part { name: "ops", cases: tier.pick(20_000, 1_000_000), min_len: 64, max_len: 6000, max_shrink: 6000, threads: threads() };
+    let part = Part { name: "ops", cases: tier.pick(100_000, 1_000_000), min_len: 64, max_len: 6000, max_shrink: 6000, threads: threads() };
     let (st, fl) = run_part(&part, seed, known, check);
     run.stats.merge(st);
     run.failure = fl;
